@@ -147,7 +147,16 @@ def run_case(case):
 			ref = list(plain)
 			mk = lambda v: np.array(sorted({(v + 7 * t) % (4 ** ks.k) for t in range(v % 4)}), dtype=dt)
 
+			lives = [(sl, ref)]      # every collection alive in this history with its plain-list model (slices taken along the way are independent lists)
+
 			def observe(step):
+				for sl_, ref_ in lives:
+					bad = observe1(step, sl_, ref_)
+					if bad:
+						return bad, sl_, ref_
+				return None
+
+			def observe1(step, sl, ref):
 				# every observable view of the list must agree with the plain-list reference
 				views = {'len': len(sl) == len(ref), 'iter': sigarray_eq(list(sl), ref),
 				         'getitem': all(np.array_equal(sl[i], ref[i]) for i in range(len(ref))),
@@ -166,6 +175,19 @@ def run_case(case):
 				bad = [k for k, v in views.items() if not v]
 				return bad
 			for step, op in enumerate(case['ops']):
+				if op[0] == 'fork':
+					# a slice of a live collection becomes a live collection of its own; from now on both are mutated and observed
+					src_sl, src_ref = lives[op[1] % len(lives)]
+					lives.append((src_sl[slice(*op[2])], src_ref[slice(*op[2])]))
+					if case.get('observe', 'each') == 'each':
+						bad = observe(step)
+						if bad:
+							return {'ok': False, 'expected': {'after': list(case['ops'][:step + 1]), 'list': [r.tolist() for r in bad[2]]},
+							        'actual': {'disagreeing_views': bad[0], 'iter': [np.asarray(r).tolist() for r in bad[1]], 'sizes': np.asarray(bad[1].sizes()).tolist()}}
+					continue
+				if op[0] == 'on':
+					sl, ref = lives[op[1] % len(lives)]
+					op = op[2]
 				kindop = op[0]
 				x = mk(op[2]) if len(op) > 2 and not isinstance(op[2], list) else None
 				xs = [mk(v) for v in op[2]] if len(op) > 2 and isinstance(op[2], list) else None
@@ -202,8 +224,8 @@ def run_case(case):
 				if case.get('observe', 'each') == 'each' or step == len(case['ops']) - 1 or (case.get('observe') == 'first' and step == 0):
 					bad = observe(step)
 					if bad:
-						return {'ok': False, 'expected': {'after': list(case['ops'][:step + 1]), 'list': [r.tolist() for r in ref]},
-						        'actual': {'disagreeing_views': bad, 'iter': [np.asarray(r).tolist() for r in sl], 'sizes': np.asarray(sl.sizes()).tolist()}}
+						return {'ok': False, 'expected': {'after': list(case['ops'][:step + 1]), 'list': [r.tolist() for r in bad[2]]},
+						        'actual': {'disagreeing_views': bad[0], 'iter': [np.asarray(r).tolist() for r in bad[1]], 'sizes': np.asarray(bad[1].sizes()).tolist()}}
 			return {'ok': True, 'expected': 'list semantics', 'actual': 'ok'}
 		if kind == 'eq':
 			a = _mk(case['coll'], plain, ks, tmp)
@@ -291,6 +313,24 @@ def cases(tier, seed):
 				('append', 0, rnd.randrange(64)), ('extend', 0, [rnd.randrange(64) for _ in range(rnd.randrange(0, 3))]),
 				('pop', rnd.randrange(-3, 3)), ('reverse', 0), ('iadd', 0, [rnd.randrange(64) for _ in range(rnd.randrange(0, 3))])]))
 		yield {'kind': 'mutate', 'n': n, 'ops': ops, 'seed': rnd.randrange(1000), 'observe': rnd.choice(['each', 'each', 'last', 'first']), 'dump': it % 6 == 0}
+	# histories over SEVERAL live collections: slices are taken along the way and become collections of their own; a slice is an independent
+	# list, so mutating the parent or the slice must never show in the other (shared caches / views between derived objects)
+	for it in range(150 if tier == 'quick' else 6000):
+		n = rnd.randrange(2, 6)
+		ops = []
+		if rnd.random() < .6:
+			ops.append(('extend', 0, []))                      # an observation before anything happens (fills whatever is cached lazily)
+		nl = 1
+		for _ in range(rnd.randrange(2, 8)):
+			sl3 = [rnd.choice([None, 0, 1, 2, -1, -2]), rnd.choice([None, 1, 2, 3, -1, 5]), rnd.choice([None, None, 1, 2, -1])]
+			if rnd.random() < .3 and nl < 4:
+				ops.append(('fork', rnd.randrange(nl), sl3))
+				nl += 1
+			else:
+				ops.append(('on', rnd.randrange(nl), rnd.choice([
+					('set', rnd.randrange(-3, 3), rnd.randrange(64)), ('set', rnd.randrange(-3, 3), rnd.randrange(64)), ('del', rnd.randrange(-3, 3)), ('ins', rnd.randrange(-4, 4), rnd.randrange(64)),
+					('setslice', sl3, [rnd.randrange(64) for _ in range(rnd.randrange(0, 4))]), ('append', 0, rnd.randrange(64)), ('pop', rnd.randrange(-2, 2)), ('reverse', 0)])))
+		yield {'kind': 'mutate', 'n': n, 'ops': ops, 'seed': rnd.randrange(1000), 'observe': rnd.choice(['each', 'each', 'last']), 'dump': it % 10 == 0}
 	for coll, coll2 in itertools.product(colls, colls):
 		for variant in ('same', 'changed', 'shorter', 'kspec'):
 			yield {'kind': 'eq', 'coll': coll, 'coll2': coll2, 'n': rnd.choice([0, 1, 3]), 'variant': variant, 'seed': rnd.randrange(1000)}
@@ -309,5 +349,5 @@ def bounded(tier, seed):
 			if len(failures) >= 5:
 				break
 	return {'tool': 'real SignatureList / SignatureArray / HDF5Signatures against plain lists with NumPy index rules',
-	        'bound': 'collections of 0, 1, 4 signatures (and up to 300 for narrow index dtypes) x every int, a grid of slices, index lists/arrays of 6 dtypes, masks; mutation histories of <= 7 steps over set/del/insert/slice assignment/slice delete/append/extend/pop/reverse/+= with every observable view (len, iteration, indexing, sizes, sizeof, ==/!= against list- and array-backed copies, HDF5 dump/load) compared against a plain list after each step, after the first step, or only at the end; equality variants',
+	        'bound': 'collections of 0, 1, 4 signatures (and up to 300 for narrow index dtypes) x every int, a grid of slices, index lists/arrays of 6 dtypes, masks; mutation histories of <= 7 steps over set/del/insert/slice assignment/slice delete/append/extend/pop/reverse/+= with every observable view (len, iteration, indexing, sizes, sizeof, ==/!= against list- and array-backed copies, HDF5 dump/load) compared against a plain list after each step, after the first step, or only at the end; histories over up to 4 live collections where slices taken along the way are mutated and observed next to their parents; equality variants',
 	        'cases': n, 'failures': failures, 'samples': sample}
